@@ -27,14 +27,22 @@ import (
 // texts) makes a result depend on what the process did before; the sessions
 // before the one that shows the difference are then part of the witness.
 
+// sessionTextKey maps an observation key of a session (L|i, V|i|j, Q|i|j) to
+// the texts it stands for; identical texts in different pool slots or sessions
+// are the same key. The name of the source is part of the key (errors carry
+// the file name).
 func sessionTextKey(s *Session, obsKey string) string {
 	var si, di int
-	if strings.HasPrefix(obsKey, "L|") {
+	switch {
+	case strings.HasPrefix(obsKey, "L|"):
 		fmt.Sscanf(obsKey, "L|%d", &si)
 		return "L\x00" + s.Schemas[si].Name + "\x00" + s.Schemas[si].Text
+	case strings.HasPrefix(obsKey, "Q|"):
+		fmt.Sscanf(obsKey, "Q|%d|%d", &si, &di)
+		return "V\x00" + s.Schemas[si].Name + "\x00" + s.Schemas[si].Text + "\x00\x00" + s.Docs[di]
 	}
 	fmt.Sscanf(obsKey, "V|%d|%d", &si, &di)
-	return "V\x00" + s.Schemas[si].Name + "\x00" + s.Schemas[si].Text + "\x00" + s.Docs[di]
+	return "V\x00" + s.Schemas[si].Name + "\x00" + s.Schemas[si].Text + "\x00" + docName(s, di) + "\x00" + s.Docs[di]
 }
 
 func dropInapplicableRules(s *Session, verbose bool) {
@@ -97,7 +105,7 @@ func runSessionsOracle(sessions []*Session, key *isoKey) (string, *Witness) {
 	if key != nil {
 		keyText = key.Kind + "\x00" + key.SchemaName + "\x00" + key.Schema
 		if key.Kind == "V" {
-			keyText += "\x00" + key.Doc
+			keyText += "\x00" + key.DocName + "\x00" + key.Doc
 		}
 	}
 	for si, s := range sessions {
